@@ -283,6 +283,11 @@ class C20(Sim):
             self.exc_violation("component-listing", "components", out, after)
         comps = out.value
         flat = [x for c in comps for x in c]
+        try:
+            hash(tuple(flat))
+        except TypeError:
+            self.violation("component-listing", "components", "wrong_value", "components", after,
+                           "components() lists objects that are not the elements (unhashable): %r" % (comps,))
         if len(flat) != len(set(flat)) or len(flat) != ref.n:
             self.violation("exactly-one-component", "components", "wrong_value", "components", after,
                            "elements listed %d times, distinct %d, model %d" % (len(flat), len(set(flat)), ref.n))
